@@ -91,4 +91,9 @@ structure ContractOn (A : Reassembler) (W : List UInt8) (ok : A.R → Prop) : Pr
   eof_complete : ∀ r n, ReachW A W r → ok r → 0 < n → W.length = (A.out r).length →
       (∃ s ∈ A.segs r, s.fin = true ∧ s.off + s.data.length = (A.out r).length) → (A.read r n).2.2 = true
 
+/-- stream offsets stay in the lower half of the offset space: every frame the sender emitted ends below
+    2^61 (QUIC offsets are below 2^62; C03's `StInBounds`) -/
+def OffsetsBounded (s : Uquic.Model.Stream.Send.State) : Prop :=
+  ∀ f ∈ s.emitted, 2 * (f.offset + f.data.length) < maxByteCount
+
 end Uquic.Spec.StreamE2E
